@@ -144,7 +144,10 @@ class RawWrapper(io.RawIOBase):
 
     def __iter__(self):
         # type: () -> Iterator[bytes]
-        return iter(self._f)
+        # A generator keeps this wrapper alive during the iteration: once
+        # the wrapper is garbage collected the wrapped file is closed.
+        for line in self._f:
+            yield line
 
 
 @typing.no_type_check
